@@ -571,6 +571,106 @@ def h_transformer_step():
             crs_mod.id = saved[2]
 
 
+# ---- E8: the string form of a CRS must not depend on what was constructed before --------------------------------
+class _KProj:
+    """pyproj.CRS stand-in for the construction cache: hashes like its WKT text and compares equal
+    to any specification of the same definition (what pyproj's __hash__/__eq__ do)"""
+
+    def __init__(self, defn, text):
+        self.defn, self.text = defn, text
+
+    def __hash__(self):
+        return hash(("wkt-of", self.defn))
+
+    def __eq__(self, o):
+        if isinstance(o, _KProj):
+            return o.defn == self.defn
+        if isinstance(o, _KStr):
+            return o.defn == self.defn
+        return False
+
+    def __str__(self):
+        return self.text
+
+    def to_wkt(self, *a, **k):
+        return _KStr(self.defn, "wkt")
+
+    def to_epsg(self):
+        return 30000 + self.defn
+
+    @classmethod
+    def from_user_input(cls, s):
+        return cls(s.defn, f"EPSG:{30000 + s.defn}" if s.kind == "epsg" else f"<wkt {s.defn}>")
+
+    @classmethod
+    def from_epsg(cls, n):
+        return cls(n - 30000, f"EPSG:{n}")
+
+
+class _KStr(str):
+    """a specification string: WKT text or authority string of definition `defn`"""
+
+    def __new__(cls, defn, kind):
+        o = str.__new__(cls, f"EPSG:{30000 + defn}" if kind == "epsg" else f"<wkt {defn}>")
+        o.defn, o.kind = defn, kind
+        return o
+
+    def __hash__(self):
+        return hash(("wkt-of", self.defn)) if self.kind == "wkt" else str.__hash__(self)
+
+    def __eq__(self, o):
+        if isinstance(o, _KProj):
+            return o.defn == self.defn and self.kind == "wkt"
+        return str.__eq__(self, o)
+
+    def upper(self):
+        return self
+
+
+def h_crs_string_history():
+    """str / hash / token of CRS(spec) for spec in {pyproj object, its WKT text, its authority
+    string} are the same whatever subset of the other two routes was used before (a symbolic
+    history of up to two earlier constructions)"""
+    import odc.geo.crs as crs_mod
+    from odc.geo.crs import CRS
+
+    conc = symx.concrete_mode()
+    routes = ("object", "wkt", "epsg")
+    _ix = lambda v: v if isinstance(v, int) else symx._sym_index(v)  # noqa: E731
+    target = routes[_ix(Int("route_under_test", 0, 2))]
+    h1 = _ix(Int("built_first", 0, 3))   # 3: nothing
+    h2 = _ix(Int("built_second", 0, 3))
+    if conc:
+        import pyproj
+
+        obj = pyproj.CRS.from_epsg(32633)
+        spec = {"object": obj, "wkt": obj.to_wkt(), "epsg": "EPSG:32633"}
+        clear = lambda: (crs_mod._crs_cache.clear())  # noqa: E731
+    else:
+        saved = crs_mod._CRS
+        crs_mod._CRS = _KProj
+        obj = _KProj(7, "EPSG:30007")
+        spec = {"object": obj, "wkt": _KStr(7, "wkt"), "epsg": _KStr(7, "epsg")}
+        clear = lambda: (crs_mod._crs_cache.clear())  # noqa: E731
+    try:
+        clear()
+        ref = CRS(spec[target])  # no history
+        ref_obs = (str(ref), hash(ref), ref.__dask_tokenize__())
+        clear()
+        for h in (h1, h2):
+            if h < 3:
+                CRS(spec[routes[h]])
+        got = CRS(spec[target])
+        obs = (str(got), hash(got), got.__dask_tokenize__())
+        prove("string_form_independent_of_history", obs[0] == ref_obs[0])
+        prove("hash_independent_of_history", obs[1] == ref_obs[1])
+        prove("token_independent_of_history", obs[2] == ref_obs[2])
+    finally:
+        clear()
+        if not conc:
+            crs_mod._CRS = saved
+
+
 def setup_crs():
     setup()
     if symx.concrete_mode():
@@ -682,6 +782,9 @@ OBLIGATIONS = [
        functions=("odc.geo.crs._make_crs", "odc.geo.crs._make_crs_transform", "odc.geo.crs._make_crs_transform_key", "odc.geo.crs.CRS.transformer_to_crs"),
        bounds="one step from a full CRS cache (its capacity, or 24 entries when unbounded); existing transformer entry for a pair among the oldest entries (0-3 older ones, symbolic); 0-5 new specifications (symbolic); one address-reuse policy (most recently freed first); longer histories are outside the claim",
        stubs=("pyproj CRS / Transformer replaced by objects on an abstract heap (address = id, freed when CPython drops the last reference)",), setup=setup),
+    Ob("E8_crs_string_history", h_crs_string_history, fixed(), descr="str/hash/token of CRS(spec) do not depend on which other routes (pyproj object, WKT text, authority string of the same CRS) were used before",
+       functions=("odc.geo.crs._make_crs_key", "odc.geo.crs._make_crs", "odc.geo.crs.CRS.__init__", "odc.geo.crs.CRS.__hash__"),
+       bounds="one CRS definition, three construction routes, histories of 0-2 earlier constructions (symbolic choice)", stubs=("pyproj CRS replaced by an object that hashes like its WKT text and equals any specification of the same definition (pyproj's contract); the replay uses pyproj itself",), setup=setup),
     Ob("E2_transitive", h_triple, fixed(*[dict(tname=t) for t in ALL]), descr="per type: == transitive over three values", functions=tuple(f"{t}.__eq__" for t in ALL),
        bounds="three values per type", setup=setup, timeout_ms=20000),
     Ob("E3_other_types", h_other_type, fixed(*[dict(tname=t) for t in ALL if t not in ("Shape2d", "BoundingBox")]), descr="never equal to None / int / str / unrelated tuple",
